@@ -131,7 +131,33 @@ fn gen_block(r: &mut Rng, depth: usize, out: &mut String, ind: usize, n: &mut us
     }
 }
 
+/// A small program carrying exactly one filter comment, of a chosen shape, right before a
+/// statement that has findings of several lints inside it.
+pub fn gen_single_filter_program(r: &mut Rng) -> FilterProgram {
+    let lint = *r.pick(&LINTS);
+    let var = *r.pick(&VARIATIONS);
+    let global = r.chance(1, 6);
+    let hash = if global { "#" } else { "" };
+    let (comment, shape): (String, &'static str) = match r.below(8) {
+        0 | 1 => (format!("--[[ some text first\n{hash} selene: {var}({lint})\n and after ]]\n"), "single:multi-line-block"),
+        2 => (format!("--[[{hash} selene: {var}({lint}) ]]\n"), "single:block-comment"),
+        3 => (format!("--[==[\n{hash}selene:{var}({lint})]==]\n"), "single:long-bracket"),
+        4 => (format!("--{hash} selene: {var}({lint}, shadowing)\n"), "single:comma-list"),
+        _ => (format!("--{hash} selene: {var}({lint})\n"), "single:line"),
+    };
+    let body = "do\n  local v0 = 1\n  local v0 = undefined_a\n  if v0 then\n  end\nend\n";
+    let src = match r.below(3) {
+        0 => format!("{comment}{body}"),
+        1 => format!("local before = 1\n{comment}{body}local after = undefined_b\n"),
+        _ => format!("local function f(a)\n{comment}{body}end\n"),
+    };
+    FilterProgram { src, n_filters: 1, shapes: vec![shape] }
+}
+
 pub fn gen_filter_program(r: &mut Rng) -> FilterProgram {
+    if r.chance(1, 3) {
+        return gen_single_filter_program(r);
+    }
     let mut src = String::new();
     let mut n = 0;
     let mut shapes = Vec::new();
